@@ -8,7 +8,7 @@ import (
 
 const (
 	tagMaxCount  = 84
-	bufferLength = 1024
+	bufferLength = 128 * 12 // holds the entries of the largest supported directory (128 tags)
 )
 
 // buffer for data and tags
@@ -126,7 +126,7 @@ func (ir *ifdReader) discard(n int) (err error) {
 		return err
 	}
 	var discarded int
-	for n > 0 && err == nil {
+	for n > 0 {
 		if bufferLength > n {
 			discarded, err = ir.reader.Read(ir.buffer.buf[:n])
 		} else {
@@ -134,8 +134,15 @@ func (ir *ifdReader) discard(n int) (err error) {
 		}
 		ir.po += uint32(discarded)
 		n -= discarded
+		if err != nil {
+			if n == 0 {
+				// the Reader delivered the last bytes together with its error (e.g. io.EOF)
+				return nil
+			}
+			return err
+		}
 	}
-	return err
+	return nil
 }
 
 // clear the buffer counters
